@@ -227,6 +227,26 @@ impl Cause {
     }
 }
 
+/// A restart in mid-run whose lifecycle hooks take a while (a restart is neither a stop nor a
+/// failure: whatever the property says must hold across it, and while it is in progress). The
+/// request goes through an `Addr` / owning handle some client holds, at a random position.
+pub fn add_slow_restart(g: &mut G, fam: &mut Fam) -> bool {
+    let holders: Vec<(usize, Slot)> = (0..fam.nclients()).flat_map(|c| fam.slots[c].of_kind(&[HKind::Addr, HKind::Owning]).into_iter().map(move |s| (c, s))).collect();
+    if holders.is_empty() || fam.sc.actors[0].restart == Restart::NonRestartable || fam.sc.actors[0].stream.is_some() {
+        return false;
+    }
+    let (c, s) = g.pick(&holders);
+    let hook = if g.chance(1, 2) { Work::Sleep(g.range(3, 30)) } else { Work::Yield(g.range(1, 3) as u32) };
+    fam.sc.actors[0].on_start.insert(0, hook);
+    if g.chance(1, 2) {
+        fam.sc.actors[0].stopped_yields = fam.sc.actors[0].stopped_yields.max(g.range(1, 2) as u32);
+    }
+    let at = fam.pos(g, c);
+    let op = if g.chance(2, 3) { Op::Restart { h: s } } else { Op::Send { h: s, id: g.id(), work: vec![Work::CtxRestart] } };
+    fam.insert(c, at, vec![op]);
+    true
+}
+
 /// `Context::stop()` from inside a handler - which then returns at once, or goes on for a few
 /// more polls / some virtual time (the stop request has been accepted when `stop()` returned,
 /// not when the handler ends)
